@@ -52,17 +52,16 @@ impl ImdsClient {
         let mut headers = HashMap::new();
         headers.insert("Metadata".to_string(), "true".to_string());
 
+        let key = self
+            .key_keeper_shared_state
+            .get_current_key()
+            .await
+            .unwrap_or(None);
         hyper_client::get(
             &url,
             &headers,
-            self.key_keeper_shared_state
-                .get_current_key_guid()
-                .await
-                .unwrap_or(None),
-            self.key_keeper_shared_state
-                .get_current_key_value()
-                .await
-                .unwrap_or(None),
+            key.as_ref().map(|k| k.guid.to_string()),
+            key.map(|k| k.key),
             logger::write_warning,
         )
         .await
